@@ -39,6 +39,11 @@ pub enum WOp {
     /// honest batch of `n` items with short texts derived from `seed` (crosses the shipped initial
     /// capacities: 2016 / 4064 entries are pre-allocated; thresholds inside the library)
     ExtendBig { n: u32, seed: u64 },
+    /// one honest batch of `n` items `a`, `ax`, `axx`, ... whose lengths, in index order, are an
+    /// input that sends the sort of the tree under test into its heapsort fallback
+    /// (`world_sort::killer_ranks`): under a pattern that scores them equally only the length
+    /// tie-break orders them
+    ExtendKiller { n: u32, seed: u64 },
     /// the next fill callback of this writer parks on gate `gate` (F1)
     HoldNextFill { gate: u32 },
     /// the next fill callback burns `k` scheduling points
@@ -180,6 +185,8 @@ struct Model {
     burn_next: Vec<u32>,
     columns: usize,
     check_notify_visibility: bool,
+    /// heapsort-fallback count right after a killer batch was computed (reach accounting)
+    killer_baseline: Option<u64>,
 }
 thread_local! {
     static MODEL: RefCell<Model> = RefCell::new(Model::default());
@@ -1053,10 +1060,28 @@ fn writer_main(w: usize, inj: Injector<Payload>, s: u32, ops: Vec<WOp>, gates: V
                     }
                 }
             }
-            WOp::Extend { .. } | WOp::ExtendBig { .. } => {
+            WOp::Extend { .. } | WOp::ExtendBig { .. } | WOp::ExtendKiller { .. } => {
                 let big;
                 let (items, lie, panic_at) = match op {
                     WOp::Extend { items, lie, panic_at } => (items, lie, panic_at),
+                    WOp::ExtendKiller { n, seed } => {
+                        let ranks = {
+                            let _q = sim::quiet();
+                            crate::world_sort::killer_ranks(*n as usize, *seed)
+                        };
+                        big = ranks
+                            .iter()
+                            .map(|r| {
+                                let mut t = vec![String::new(); cols];
+                                t[0] = format!("a{}", "x".repeat(*r as usize));
+                                t
+                            })
+                            .collect::<Vec<_>>();
+                        let hs = sim::with(|s| s.probes.get("sort.heapsort").copied().unwrap_or(0));
+                        model(|m| m.killer_baseline = Some(hs));
+                        sim::probe("writer.extend_killer");
+                        (&big, &Lie::Honest, &None)
+                    }
                     WOp::ExtendBig { n, seed } => {
                         let mut r = SplitMix::derive(*seed, 3);
                         big = (0..*n).map(|_| (0..cols).map(|_| gen::rstr(&mut r, gen::ITEM_ALPHA, 1, 3)).collect::<Vec<String>>()).collect::<Vec<_>>();
@@ -1257,6 +1282,12 @@ impl Job for NucleoScript {
         // the snapshot/current-stream references are gone now; pool threads drain in the caller
     }
     fn post(&self, out: &mut Outcome) {
+        if let Some(base) = model(|m| m.killer_baseline) {
+            let hs = sim::with(|s| s.probes.get("sort.heapsort").copied().unwrap_or(0));
+            if hs > base {
+                out.probes.insert("worker.heapsort_on_killer_batch", 1);
+            }
+        }
         post_accounting(out);
     }
 }
@@ -1325,6 +1356,7 @@ pub fn sequentialise(sc: &NucleoScript) -> NucleoScript {
                 WOp::Push { texts } | WOp::PushPanic { texts } => ops.push(WOp::Push { texts: texts.clone() }),
                 WOp::Extend { items, .. } if !items.is_empty() => ops.push(WOp::Extend { items: items.clone(), lie: Lie::Honest, panic_at: None }),
                 WOp::ExtendBig { n, seed } => ops.push(WOp::ExtendBig { n: *n, seed: *seed }),
+                WOp::ExtendKiller { n, seed } => ops.push(WOp::ExtendKiller { n: *n, seed: *seed }),
                 _ => {}
             }
         }
